@@ -94,9 +94,72 @@ fn sweep_block(i: u64) -> Vec<u8> {
         return b;
     }
     let i = i - 256 * 625;
-    horizon_block((i % 256) as u8, (i / 256) as u8, 0xEE)
+    if i < 65536 {
+        return horizon_block((i % 256) as u8, (i / 256) as u8, 0xEE);
+    }
+    // generic field sweeps: both families x three base blocks
+    let i = i - 65536;
+    let base = |fam: u8, which: u64| -> Vec<u8> {
+        let mut b = match which {
+            0 => vec![0u8; 16],
+            1 => vec![0xFFu8; 16],
+            _ => {
+                if fam == 4 {
+                    flipdot_core::SignType::Max3000Front112x16.to_bytes().to_vec()
+                } else {
+                    flipdot_core::SignType::HorizonFront140x16.to_bytes().to_vec()
+                }
+            }
+        };
+        b[0] = fam;
+        b
+    };
+    // D: every single position 1..16 x every value
+    if i < 2 * 3 * 15 * 256 {
+        let v = (i % 256) as u8;
+        let p = 1 + ((i / 256) % 15) as usize;
+        let which = (i / 256 / 15) % 3;
+        let fam = if i / 256 / 15 / 3 == 0 { 4 } else { 8 };
+        let mut b = base(fam, which);
+        b[p] = v;
+        return b;
+    }
+    let i = i - 2 * 3 * 15 * 256;
+    // E: every pair of positions 2..16 x extreme values squared
+    if i < 2 * 3 * 91 * 25 {
+        let (va, vb) = (wvals[(i % 5) as usize], wvals[((i / 5) % 5) as usize]);
+        let mut pair = (i / 25) % 91;
+        let which = (i / 25 / 91) % 3;
+        let fam = if i / 25 / 91 / 3 == 0 { 4 } else { 8 };
+        let (mut p, mut q) = (2usize, 3usize);
+        'find: for a in 2..16usize {
+            for c in (a + 1)..16usize {
+                if pair == 0 {
+                    p = a;
+                    q = c;
+                    break 'find;
+                }
+                pair -= 1;
+            }
+        }
+        let mut b = base(fam, which);
+        b[p] = va;
+        b[q] = vb;
+        return b;
+    }
+    let i = i - 2 * 3 * 91 * 25;
+    // F: every window of four consecutive positions x extreme values^4, base all-zero
+    let mut x = i % 625;
+    let start = 2 + ((i / 625) % 11) as usize;
+    let fam = if i / 625 / 11 == 0 { 4 } else { 8 };
+    let mut b = base(fam, 0);
+    for k in 0..4 {
+        b[start + k] = wvals[(x % 5) as usize];
+        x /= 5;
+    }
+    b
 }
-const SWEEP_N: u64 = 256 * 3 + 256 * 625 + 65536;
+const SWEEP_N: u64 = 256 * 3 + 256 * 625 + 65536 + 2 * 3 * 15 * 256 + 2 * 3 * 91 * 25 + 2 * 11 * 625;
 
 struct SinkLogger;
 impl log::Log for SinkLogger {
@@ -177,7 +240,7 @@ pub fn run(ctx: &Ctx) -> Report {
     }
 
     // configuration sweep
-    let step = if thorough { 1 } else { 7 };
+    let step = 1;
     let n = SWEEP_N / step;
     let accs = par_range(n, 256, Acc::default, |acc, j| {
         let i = j * step;
@@ -201,7 +264,7 @@ pub fn run(ctx: &Ctx) -> Report {
     rep.distinct_nontrivial += sweep_runs;
     rep.absorb(sweep);
     rep.set("configuration_sweep", json!({"blocks": n, "sequences": sweep_runs, "messages_each": 9, "stride": step,
-        "domain": "family byte all 256 x 3 ids; Max3000 height all 256 x width bytes {0,1,7F,80,FF}^4; Horizon width all 256 x height all 256"}));
+        "domain": "family byte all 256 x 3 ids; Max3000 height all 256 x width bytes {0,1,7F,80,FF}^4; Horizon width all 256 x height all 256; for both families x 3 base blocks (all-00, all-FF, a real block): every single byte position x all 256 values, every pair of positions x {0,1,7F,80,FF}^2; every window of 4 consecutive positions x {0,1,7F,80,FF}^4"}));
 
     // counter chains
     let own = Address(OWN);
